@@ -358,3 +358,82 @@ Theorem C15_net_histories_one_connection :
 Proof. exact (@Client_proofs15.C15_net_histories_one_connection). Qed.
 
 Print Assumptions C15_net_histories_one_connection.
+
+(* ---- replies lost while the connection stays up (package S, NetB.v = Net.v + BLoseB j i: the oldest block batch in flight from j to i vanishes — the
+   Rust fact: after start_send a stream error drops the FramedWrite with its buffer, the behaviour has already taken the wants off its books).  Net.v's
+   invariant RI survives such a loss (unlike a failed wantlist, package P), so settle terminates and C02's statement holds verbatim for runs with any
+   number of lost replies: the requester's next full wantlist re-registers the want and the server looks the block up again.  The refresh is necessary
+   (refuted without it). *)
+From BS Require Import Server_lemmas Server_inv Wantlist_proofs Client_proofs Client_proofs2 Client_proofs3 Client_proofs4
+  Net Net_proofs Net_proofs2 Net_proofs3 Net_proofs4 Net_proofs5 Net_proofs6 Net_proofs7 Net_proofs9 Net_proofs10 Net_proofs14
+  Net_proofs24 Net_proofs28 Net_proofs32 Net_proofs35 Net_proofs36
+  NetB NetB_proofs NetB_proofs2 NetB_proofs3 NetB_proofs4 NetB_proofs5 NetB_proofs6.
+From BS Require Import NetB_props.
+From Coq Require Import ZArith Lia.
+Open Scope N_scope.
+
+Theorem C02_net_invariant_survives_lost_replies :
+  forall (Sz : N) (Hh : hash_fn),
+  32 <= Sz ->
+  forall (n : nat) (ops : list bop),
+  Forall (nop_good Sz Hh) (base_ops ops) ->
+  Forall (nop_wf Sz) (base_ops ops) -> RI Sz Hh (fst (brun Sz Hh (net_init n) ops)).
+Proof. exact (@NetB_props.S_reachableB_RI). Qed.
+
+Theorem C02_settle_terminates_with_block_loss :
+  forall (Sz : N) (Hh : hash_fn),
+  32 <= Sz ->
+  forall (n : nat) (ops : list bop),
+  Forall (nop_good Sz Hh) (base_ops ops) ->
+  Forall (nop_wf Sz) (base_ops ops) ->
+  let s := fst (brun Sz Hh (net_init n) ops) in
+  let r1 := settle Sz Hh s in quietb (fst r1) = true /\ quietb (fst (refresh Sz Hh (fst r1))) = true.
+Proof. exact (@NetB_props.S_settle_terminates_B). Qed.
+
+Theorem C02_direct_with_block_loss :
+  forall (Sz : N) (Hh : hash_fn),
+  32 <= Sz ->
+  forall (i j : N) (q : qid) (c : cid) (n : nat) (ops : list bop),
+  Forall (nop_good Sz Hh) (base_ops ops) ->
+  Forall (nop_wf Sz) (base_ops ops) ->
+  let s := fst (brun Sz Hh (net_init n) ops) in
+  live_query i q c s ->
+  connected s i j = true ->
+  (exists (st : list (cid * bytes)) (d : bytes), store_of s j = Some st /\ store_get st c = SHit d) ->
+  let r1 := settle Sz Hh s in
+  let r2 := refresh Sz Hh (fst r1) in
+  (length (wl_i i (fst r1)) <= 1024)%nat -> answered i q (snd r1 ++ snd r2).
+Proof. exact (@NetB_props.S_C02_direct_with_block_loss). Qed.
+
+Theorem C14_records_equal_with_block_loss :
+  forall (Sz : N) (Hh : hash_fn),
+  32 <= Sz ->
+  forall (i j : N) (n : nat) (ops : list bop),
+  Forall (nop_good Sz Hh) (base_ops ops) ->
+  Forall (nop_wf Sz) (base_ops ops) ->
+  let s := fst (brun Sz Hh (net_init n) ops) in
+  connected s i j = true ->
+  let r1 := settle Sz Hh s in
+  let r2 := refresh Sz Hh (fst r1) in
+  (length (wl_i i (fst r1)) <= 1024)%nat ->
+  forall c : cid,
+  In c (wl_i i (fst r2)) <-> (exists st : sstate, server_of (fst r2) j = Some st /\ wantsP (s_wants st) i c).
+Proof. exact (@NetB_props.S_C14_records_equal_with_block_loss). Qed.
+
+Theorem C02_block_loss_needs_refresh_refuted :
+  exists (n : nat) (ops : list bop) (i j : N) (q : qid) (c : cid),
+    Forall (nop_good SZ toyH) (base_ops ops) /\
+    Forall (nop_wf SZ) (base_ops ops) /\
+    (let s := fst (brun SZ toyH (net_init n) ops) in
+     live_query i q c s /\
+     connected s i j = true /\
+     (exists (st : list (cid * bytes)) (d : bytes), store_of s j = Some st /\ store_get st c = SHit d) /\
+     (let r1 := settle SZ toyH s in
+      quietb (fst r1) = true /\ ~ answered i q (snd r1) /\ live_query i q c (fst r1))).
+Proof. exact (@NetB_props.S_C02_block_loss_needs_refresh_refuted). Qed.
+
+Print Assumptions C02_net_invariant_survives_lost_replies.
+Print Assumptions C02_settle_terminates_with_block_loss.
+Print Assumptions C02_direct_with_block_loss.
+Print Assumptions C14_records_equal_with_block_loss.
+Print Assumptions C02_block_loss_needs_refresh_refuted.
